@@ -18,7 +18,7 @@ import mirq as Q
 import hirq as H
 import pp
 from rules.C01 import (Interp, MutStruct, Undecidable, V, is_variant, freeze, _hloc, _short, _variants,
-                       ATTRCHAR, ORIGIN, SOME, NONE)
+                       _reachable_under, ATTRCHAR, ORIGIN, SOME, NONE)
 
 RS = RuleSet(
     'C05',
@@ -170,88 +170,6 @@ def _behind(du, operand):
         else:
             return l
     return l
-
-
-# ---- conditional constant propagation over a MIR body (helper the engine lacks) ------------
-_NAC = 'NAC'
-
-
-def _const_of(o):
-    if 'cp' in o or 'mv' in o:
-        return None
-    c = str(o.get('c'))
-    if c == 'true':
-        return 1
-    if c == 'false':
-        return 0
-    m = re.match(r'^(-?\d+)_[iu](8|16|32|64|128|size)$', c)
-    return int(m.group(1)) if m else _NAC
-
-
-def _reachable_under(body, arg_consts, call_consts):
-    """Blocks reachable when the given argument locals hold the given integer constants and
-    calls to the given functions return the given constants. Whole-local copies and constants
-    are propagated, switches on known values follow only the matching edge, everything else is
-    unknown (all edges)."""
-    n = len(body.blocks)
-    # locals that are ever mutably borrowed can change behind our back: never tracked
-    escaped = {s['rv']['pl']['l'] for _, _, s in body.stmts()
-               if s['k'] == 'assign' and s['rv']['k'] in ('ref', 'rawptr') and s['rv'].get('mut')}
-    env_in = [None] * n            # None = not reached yet; else {local: const}, absent = unknown
-    env_in[0] = {k: v for k, v in arg_consts.items() if k not in escaped}
-    work = [0]
-    reached = set()
-
-    def val(env, o):
-        c = _const_of(o)
-        if c is not None:
-            return c
-        p = Q.operand_place(o)
-        if p.get('p'):
-            return _NAC
-        return env.get(p['l'], _NAC)
-    while work:
-        b = work.pop()
-        reached.add(b)
-        env = dict(env_in[b])
-        for s in body.blocks[b]['s']:
-            if s['k'] == 'assign':
-                l = s['lhs']['l']
-                if s['lhs'].get('p'):
-                    env.pop(l, None)
-                    continue
-                rv = s['rv']
-                v = val(env, rv['o']) if rv['k'] == 'use' else _NAC
-                if v == _NAC or l in escaped:
-                    env.pop(l, None)
-                else:
-                    env[l] = v
-            elif s['k'] == 'setdiscr':
-                env.pop(s['lhs']['l'], None)
-        t = body.blocks[b]['t']
-        succs = body.succ(b)
-        if t['k'] == 'call':
-            l = t['dest']['l']
-            env.pop(l, None)
-            for nm in Q.callee_names(t):
-                if nm in call_consts and not t['dest'].get('p') and l not in escaped:
-                    env[l] = call_consts[nm]
-        elif t['k'] == 'switch':
-            v = val(env, t['d'])
-            if v != _NAC:
-                tgt = [x[1] for x in t['ts'] if x[0] == v]
-                succs = [tgt[0]] if tgt else [t['else']]
-        for s2 in succs:
-            old = env_in[s2]
-            if old is None:
-                env_in[s2] = dict(env)
-                work.append(s2)
-            else:
-                new = {k: v for k, v in old.items() if env.get(k, _NAC) == v}
-                if new != old:
-                    env_in[s2] = new
-                    work.append(s2)
-    return reached
 
 
 @RS.rule('C05.R2', 'K-GUARD', 'push_component delivers only complete, existing paths: results.push needs file_exists || self.file_exists() (an fstatat)')
